@@ -228,20 +228,44 @@ fn sd_stride_roundtrip(orig: Stride) {
     cover!(a, "continuation accepted");
 }
 
-// @h prop=C16 tier=quick kind=proof unwindset="memcmp:40" memw=3 inst="Stride (Empty, Zero, Striding(s,3), Saturated(s,3,r)) through the self-describing token format" bounds="symbolic variant, stride s (s*2 does not overflow) and repetitions r; one symbolic continuation push" desc="every variant survives a format in which enums are tagged by variant name and unit variants are bare names; same answer to the next push"
+// @h prop=C16 tier=quick kind=proof unwindset="memcmp:40" timeout=900 inst="Stride::Empty through the self-describing token format" bounds="symbolic stride s (s*2 does not overflow) and repetitions r; one symbolic continuation push" desc="the variant survives a format in which enums are tagged by variant name and unit variants are bare names (one harness per variant: a symbolic variant makes the name pointers symbolic, 65 s and out of memory under `untagged`); same answer to the next push"
 #[cfg_attr(kani, kani::proof, kani::unwind(4))]
-pub fn c16_sd_stride() {
+pub fn c16_sd_stride_empty() {
     let s = sym::usize();
     let r = sym::usize();
     sym::assume(s <= usize::MAX / 2 && r >= 1 && r <= isize::MAX as usize);
-    let which = sym::u8();
-    let orig = match which & 3 {
-        0 => Stride::Empty,
-        1 => Stride::Zero,
-        2 => Stride::Striding(s, 3),
-        _ => Stride::Saturated(s, 3, r),
-    };
-    sd_stride_roundtrip(orig);
+    let _ = (s, r);
+    sd_stride_roundtrip(Stride::Empty);
+}
+
+// @h prop=C16 tier=quick kind=proof unwindset="memcmp:40" timeout=900 inst="Stride::Zero through the self-describing token format" bounds="symbolic stride s (s*2 does not overflow) and repetitions r; one symbolic continuation push" desc="the variant survives a format in which enums are tagged by variant name and unit variants are bare names (one harness per variant: a symbolic variant makes the name pointers symbolic, 65 s and out of memory under `untagged`); same answer to the next push"
+#[cfg_attr(kani, kani::proof, kani::unwind(4))]
+pub fn c16_sd_stride_zero() {
+    let s = sym::usize();
+    let r = sym::usize();
+    sym::assume(s <= usize::MAX / 2 && r >= 1 && r <= isize::MAX as usize);
+    let _ = (s, r);
+    sd_stride_roundtrip(Stride::Zero);
+}
+
+// @h prop=C16 tier=quick kind=proof unwindset="memcmp:40" timeout=900 inst="Stride::Striding(s,3) through the self-describing token format" bounds="symbolic stride s (s*2 does not overflow) and repetitions r; one symbolic continuation push" desc="the variant survives a format in which enums are tagged by variant name and unit variants are bare names (one harness per variant: a symbolic variant makes the name pointers symbolic, 65 s and out of memory under `untagged`); same answer to the next push"
+#[cfg_attr(kani, kani::proof, kani::unwind(4))]
+pub fn c16_sd_stride_striding() {
+    let s = sym::usize();
+    let r = sym::usize();
+    sym::assume(s <= usize::MAX / 2 && r >= 1 && r <= isize::MAX as usize);
+    let _ = (s, r);
+    sd_stride_roundtrip(Stride::Striding(s, 3));
+}
+
+// @h prop=C16 tier=quick kind=proof unwindset="memcmp:40" timeout=900 inst="Stride::Saturated(s,3,r) through the self-describing token format" bounds="symbolic stride s (s*2 does not overflow) and repetitions r; one symbolic continuation push" desc="the variant survives a format in which enums are tagged by variant name and unit variants are bare names (one harness per variant: a symbolic variant makes the name pointers symbolic, 65 s and out of memory under `untagged`); same answer to the next push"
+#[cfg_attr(kani, kani::proof, kani::unwind(4))]
+pub fn c16_sd_stride_saturated() {
+    let s = sym::usize();
+    let r = sym::usize();
+    sym::assume(s <= usize::MAX / 2 && r >= 1 && r <= isize::MAX as usize);
+    let _ = (s, r);
+    sd_stride_roundtrip(Stride::Saturated(s, 3, r));
 }
 
 // @h prop=C16 tier=thorough kind=proof unwindset="memcmp:40" timeout=1800 mem=16 memw=10 inst="IndexList<Vec<u32>,Vec<u64>> through the self-describing token format" bounds="state {smol: [a,b], chonk: [c]} with symbolic a,b,c; one symbolic continuation push" desc="structural equality after a round trip through name-keyed maps and delimited sequences; same continuation"
